@@ -50,10 +50,13 @@ type desc struct {
 	HookReady   bool      `json:"hook_ready"`
 	HookRecover bool      `json:"hook_recover"`
 	Reuseport   bool      `json:"reuseport"`
-	Kids        []kidPlan `json:"kids"`       // plan of the i-th producer call; beyond the list: exit 0 after 10 ms
-	HookAt      int       `json:"hook_at"`    // OnChildSpawn call index that fails (-1: never)
-	HookPanic   bool      `json:"hook_panic"` // ... by panicking
-	Ready       int       `json:"ready"`      // OnMasterReady: 0 ok, 1 error, 2 panic
+	Kids        []kidPlan `json:"kids"`                       // plan of the i-th producer call; beyond the list: exit 0 after 10 ms
+	HookAt      int       `json:"hook_at"`                    // OnChildSpawn call index that fails (-1: never)
+	HookPanic   bool      `json:"hook_panic"`                 // ... by panicking
+	Ready       int       `json:"ready"`                      // OnMasterReady: 0 ok, 1 error, 2 panic
+	Entry       string    `json:"entry,omitempty"`            // "" ListenAndServe | tls ListenAndServeTLS | tlsembed ListenAndServeTLSEmbed
+	DefaultProd bool      `json:"default_producer,omitempty"` // CommandProducer nil: the master re-executes this binary (children exit 3 at once)
+	RecPanicAt  int       `json:"rec_panic_at,omitempty"`     // OnChildRecover call (1-based) that panics; 0 = never
 }
 
 // ---- result of one history (case process -> harness) -------------------------
@@ -233,6 +236,8 @@ func runCase(d desc) result {
 				cmd = exec.Command("/bin/sh", "-c", fmt.Sprintf("exit %d", pl.Code))
 			}
 			minLife = int64(pl.DelayMs) * int64(time.Millisecond)
+		case "suicide": // dies of a signal nobody in the master sent
+			cmd = exec.Command("/bin/sh", "-c", "kill -9 $$")
 		case "sleep":
 			cmd = exec.Command("/bin/sleep", longLifeSecs)
 		case "stubborn":
@@ -278,11 +283,22 @@ func runCase(d desc) result {
 		Logger:              evLogger{rec},
 		CommandProducer:     producer,
 	}
+	if d.DefaultProd {
+		p.CommandProducer = nil
+		d.HookSpawn = true // the only place the pids of the default producer's children are visible
+	}
 	if d.HookSpawn {
 		hookCalls := 0
 		p.OnChildSpawn = func(pid int) error {
 			i := hookCalls
 			hookCalls++
+			if d.DefaultProd {
+				mu.Lock()
+				cmds = append(cmds, nil)
+				res.Kids = append(res.Kids, kidRes{Pid: pid, Kind: "default", TermSeen: -1})
+				mu.Unlock()
+				rec(logEv{K: "spawn", R: "started", Pid: pid})
+			}
 			if i == d.HookAt {
 				if d.HookPanic {
 					rec(logEv{K: "hook", R: "panic", Pid: pid})
@@ -310,7 +326,13 @@ func runCase(d desc) result {
 		}
 	}
 	if d.HookRecover {
+		recCalls := 0
 		p.OnChildRecover = func(oldPID, newPID int) {
+			recCalls++
+			if recCalls == d.RecPanicAt {
+				rec(logEv{K: "reccb", R: "panic", Old: oldPID, Pid: newPID})
+				panic("c39: OnChildRecover panics")
+			}
 			rec(logEv{K: "reccb", Old: oldPID, Pid: newPID})
 		}
 	}
@@ -319,6 +341,10 @@ func runCase(d desc) result {
 		err      error
 		panicked bool
 		ts       int64
+	}
+	wd := watchdog
+	if d.GraceMs <= 0 {
+		wd += 5 * time.Second // the default grace period is part of a correct teardown here
 	}
 	done := make(chan ret, 1)
 	go func() {
@@ -330,16 +356,23 @@ func runCase(d desc) result {
 			r.ts = int64(time.Since(start))
 			done <- r
 		}()
-		r.err = p.ListenAndServe("127.0.0.1:0")
+		switch d.Entry {
+		case "tls":
+			r.err = p.ListenAndServeTLS("127.0.0.1:0", "no-key.pem", "no-cert.pem")
+		case "tlsembed":
+			r.err = p.ListenAndServeTLSEmbed("127.0.0.1:0", nil, nil)
+		default:
+			r.err = p.ListenAndServe("127.0.0.1:0")
+		}
 	}()
 	select {
 	case r := <-done:
 		res.Returned = true
 		res.Err = errClass(r.err, r.panicked)
 		res.RetTs = r.ts
-	case <-time.After(watchdog):
+	case <-time.After(wd):
 		res.Returned = false
-		res.Note = "prefork did not return within " + watchdog.String()
+		res.Note = "prefork did not return within " + wd.String()
 	}
 
 	// ---- observe the children (only those this producer started) ----
@@ -361,6 +394,16 @@ func runCase(d desc) result {
 		if seen[k.Pid] {
 			k.TermSeen = 1
 		}
+		if cmd == nil {
+			// child of the default producer: no handle; it is ours as long as it is our child in /proc
+			if st, ppid, ok := procStat(k.Pid); ok && ppid == me {
+				k.Left, k.Cause = true, "none"
+				k.Kind += "/" + st
+			} else {
+				k.Reaped, k.Cause = true, "other"
+			}
+			continue
+		}
 		ps := cmd.ProcessState
 		if ps != nil {
 			k.Reaped = true
@@ -377,6 +420,9 @@ func runCase(d desc) result {
 				// at send time, so dying of SIGKILL means no SIGTERM was sent before
 				if k.Kind == "exit" || k.Kind == "sleep" {
 					k.TermSeen = 0
+				}
+				if k.Kind == "suicide" {
+					k.Cause = "other" // its own doing, not the master's SIGKILL
 				}
 			default:
 				k.Cause = "other"
@@ -395,6 +441,12 @@ func runCase(d desc) result {
 	res.TaggedLeft = len(tagged)
 	// ---- cleanup: our own leftovers only ----
 	for i, cmd := range cmds {
+		if cmd == nil {
+			if res.Kids[i].Left {
+				_ = syscall.Kill(res.Kids[i].Pid, syscall.SIGKILL) // still our own child: the pid cannot have been reused
+			}
+			continue
+		}
 		if !res.Kids[i].Reaped {
 			_ = cmd.Process.Kill()
 		}
@@ -586,6 +638,8 @@ func run(d desc) hlib.Case {
 			isTrigger = e.R != "started"
 		case "hook", "ready":
 			isTrigger = e.R != "ok"
+		case "reccb":
+			isTrigger = e.R == "panic"
 		case "recv":
 			isTrigger = nRecv+1 > d.T
 		}
@@ -615,7 +669,11 @@ func run(d desc) hlib.Case {
 		case "ready":
 			tr = append(tr, "EReady "+outcome(e.R))
 		case "reccb":
-			tr = append(tr, "ERecoverCb "+hlib.Z(int64(e.Old))+" "+hlib.Z(int64(e.Pid)))
+			if e.R == "panic" {
+				tr = append(tr, "ERecoverPanic")
+			} else {
+				tr = append(tr, "ERecoverCb "+hlib.Z(int64(e.Old))+" "+hlib.Z(int64(e.Pid)))
+			}
 		case "recv":
 			if cid, ok := cidOf[e.Pid]; ok && !processed[cid] {
 				die(cid, "DSelf")
@@ -805,6 +863,40 @@ func corpus() []desc {
 	d.HookSpawn, d.HookReady, d.HookRecover = true, true, true
 	d.Kids = []kidPlan{ex(1, 20), ex(2, 20), ex(3, 20), kd("sleep"), kd("stubborn")}
 	add(d)
+	// the other two entry points run the same master
+	for j, en := range []string{"tls", "tlsembed"} {
+		d := base(2, 1, 20, 100)
+		d.Entry, d.Reuseport = en, j == 0
+		d.Kids = []kidPlan{kd("sleep"), ex(1, 10), ex(0, 5), kd("stubborn")}
+		add(d)
+	}
+	// the default command producer (CommandProducer nil): this binary is re-executed and exits 3 at once
+	for g := 1; g <= 2; g++ {
+		d := base(g, 1, 20*(g-1), 100)
+		d.DefaultProd, d.HookSpawn, d.Reuseport = true, true, g == 1
+		add(d)
+	}
+	// ShutdownGracePeriod 0 means the 5 s default: not waited for when everybody obeys SIGTERM, waited for otherwise
+	d = base(2, 0, 0, 0)
+	d.Kids = []kidPlan{kd("sleep"), ex(2, 10)}
+	add(d)
+	d = base(2, 0, 0, 0)
+	d.Kids = []kidPlan{kd("stubborn"), ex(2, 10)}
+	add(d)
+	// OnChildRecover panics: the deferred teardown still runs
+	for g := 1; g <= 3; g += 2 {
+		d := base(g, 3, 0, 100)
+		d.HookRecover, d.HookSpawn, d.RecPanicAt = true, g == 3, 1+g/3
+		for j := 0; j < g-1; j++ {
+			d.Kids = append(d.Kids, kd([]string{"stubborn", "goterm"}[j%2]))
+		}
+		d.Kids = append(d.Kids, ex(1, 5), ex(0, 5), kd("sleep"))
+		add(d)
+	}
+	// a child that dies of a signal by itself is an exit like any other
+	d = base(2, 1, 30, 100)
+	d.Kids = []kidPlan{kd("suicide"), kd("gostubborn"), kd("suicide")}
+	add(d)
 	for i := range c {
 		schedule(c[i])
 	}
@@ -854,12 +946,24 @@ func gen(r *rand.Rand, i int) desc {
 			nLong++
 			continue
 		}
+		if r.Intn(8) == 0 {
+			d.Kids = append(d.Kids, kd("suicide"))
+			continue
+		}
 		d.Kids = append(d.Kids, ex(r.Intn(4), hlib.Pick(r, []int{0, 5, 15, 40})))
+	}
+	d.Entry = hlib.Pick(r, []string{"", "", "", "tls", "tlsembed"})
+	if d.HookRecover && r.Intn(6) == 0 {
+		d.RecPanicAt = 1 + r.Intn(2)
 	}
 	return schedule(d)
 }
 
 func main() {
+	if os.Getenv(roleEnv) == "" && os.Getenv("FASTHTTP_PREFORK_CHILD") == "1" {
+		// started by prefork's default command producer (re-exec of this binary): a child that exits at once
+		os.Exit(3)
+	}
 	switch os.Getenv(roleEnv) {
 	case "child":
 		childMain()
